@@ -43,3 +43,21 @@ def obligation_props(name, default):
     if sep and head and all(len(p) >= 3 and p[0] == "C" and p[1:].isdigit() for p in head.split(",")):
         return head.split(","), rest
     return list(default), name
+
+
+def call_contract(real_fn, group):
+    """Register `spec_fn` (sidecar Python, same signature) as the contract that replaces `real_fn` at call sites in
+    harnesses that ask for `group` (use_contracts=[group]).  The replacement is interpreted like any other code:
+    H.check in it is the precondition obligation at the call site, its return value / H.assume the postcondition.
+    A separate harness must verify real_fn against the same spec_fn."""
+
+    def deco(spec_fn):
+        key = getattr(real_fn, "__func__", real_fn)
+
+        def model(I, args, kwargs, _spec=spec_fn):
+            return I.run_function(_spec, list(args), dict(kwargs))
+
+        CALL_CONTRACTS.setdefault(group, {})[key] = model
+        return spec_fn
+
+    return deco
